@@ -62,6 +62,11 @@ def apply_effect(kind: str, arg, circuit: Circuit, data) -> None:
             data.placement = list(reversed(data.placement))
     elif kind == 'setkey':
         data[f'key{arg}'] = arg
+    elif kind == 'appendkey':
+        # in-place mutation of a value already stored in the pass data
+        if 'keylist' not in data:
+            data['keylist'] = []
+        data['keylist'].append(arg)
     elif kind in ('fail', 'spin'):
         pass
     else:
@@ -271,7 +276,8 @@ def gen_bodies(rng: random.Random, ids: IdGen, in_block: bool,
     """A short list of bodies, possibly wrapped in control passes."""
     out = []
     for _ in range(rng.randint(1, 3)):
-        kinds = ['identity', 'grow', 'shrink', 'rewrite', 'spin', 'setkey']
+        kinds = ['identity', 'grow', 'shrink', 'rewrite', 'spin', 'setkey',
+                 'appendkey']
         if not in_block:
             kinds += ['touch']
         kind = rng.choice(kinds)
@@ -329,6 +335,19 @@ def gen_workflow(rng: random.Random) -> list:
                     branches.append(gen_bodies(rng, ids, False, False))
             wf.append({'t': 'pdo', 'branches': branches,
                        'pick_first': rng.random() < 0.5})
+        elif r < 0.85:
+            # a ForEach inside a DoThenDecide: a rejection must also take
+            # back the block data the ForEach recorded
+            inner = {'t': 'foreach',
+                     'body': gen_bodies(rng, ids, True, False),
+                     'filter': rng.choice(['all', 'wide']),
+                     'replace': rng.choice(['always', 'even']),
+                     'err': rng.random() < 0.5}
+            pre = gen_bodies(rng, ids, False, False) \
+                if rng.random() < 0.5 else []
+            wf.append({'t': 'dtd', 'id': ids(),
+                       'verdict': rng.random() < 0.5,
+                       'body': pre + [inner]})
         else:
             wf.extend(gen_bodies(rng, ids, False, True))
     return wf
